@@ -287,13 +287,20 @@ def directives(values):
 
 
 def forbidden_reason(s):
-    rd, qd = directives(s["resp_cc"]), directives(s["req_cc"])
-    if "no-store" in rd: return "resp-no-store"
-    if "private" in rd: return "resp-private"
-    if "no-store" in qd: return "req-no-store"
+    # Two legitimate readings of several Cache-Control field lines exist: line by line, and as the one combined
+    # comma-joined value (RFC 9110 section 5.3; Squid reads the combined value). They differ only when a line leaves a
+    # quoted string open, which then swallows the elements of the following lines. A directive counts as present only
+    # when both readings see it, and the sharing exception counts when either reading sees it - the check must not
+    # demand more than the property states (thorough-tier false alarm: `NO-CACHE="x , no-transform` + `pRIvaTE`).
+    rd1, rd2 = directives(s["resp_cc"]), directives([", ".join(s["resp_cc"])])
+    qd1, qd2 = directives(s["req_cc"]), directives([", ".join(s["req_cc"])])
+    both = lambda n, a, b: n in a and n in b
+    if both("no-store", rd1, rd2): return "resp-no-store"
+    if both("private", rd1, rd2): return "resp-private"
+    if both("no-store", qd1, qd2): return "req-no-store"
     if s["auth"]:
         # the property's exception, literally: a public, must-revalidate or s-maxage element is present
-        if not ("public" in rd or "must-revalidate" in rd or "s-maxage" in rd):
+        if not any(n in rd for n in ("public", "must-revalidate", "s-maxage") for rd in (rd1, rd2)):
             return "auth"
     return None
 
